@@ -42,6 +42,9 @@ pub struct Case {
     /// delete_after: 0 makes every sweep visible (a filtered frame must not move the sweep schedule)
     #[serde(default = "big_d")]
     pub d: i64,
+    /// -M list (message logging must not interfere with the filter)
+    #[serde(default)]
+    pub m: Option<Vec<u32>>,
 }
 fn big_d() -> i64 {
     1_000_000
@@ -74,7 +77,7 @@ fn case_strategy(max: usize) -> BoxedStrategy<Case> {
         5 => proptest::sample::subsequence(NINE.to_vec(), 1..7).prop_map(Some),
         1 => proptest::collection::vec(prop_oneof![2 => 0u32..32, 2 => 32u32..64, 1 => Just(99u32), 1 => Just(4u32 + 32), 1 => Just(17u32 + 32)], 1..5).prop_map(Some),
     ];
-    (proptest::collection::vec(line_strategy(), 3..max), filt, any::<bool>(), any::<bool>(), prop_oneof![3 => Just(1_000_000i64), 1 => Just(0i64)]).prop_map(|(lines, filter, count, u, d)| Case { lines, filter, count, u, d }).boxed()
+    (proptest::collection::vec(line_strategy(), 3..max), filt, any::<bool>(), any::<bool>(), prop_oneof![3 => Just(1_000_000i64), 1 => Just(0i64)], prop_oneof![2 => Just(None), 1 => proptest::sample::subsequence(NINE.to_vec(), 1..4).prop_map(Some)]).prop_map(|(lines, filter, count, u, d, m)| Case { lines, filter, count, u, d, m }).boxed()
 }
 
 fn frame_of(line: &[u8]) -> Option<Frame> {
@@ -106,7 +109,7 @@ pub fn expected_counts(c: &Case) -> BTreeMap<u32, u64> {
 }
 
 fn check_filter(c: &Case) -> Result<(), String> {
-    let o1 = Opts { f: c.filter.clone(), u: c.u, d: c.d, ..Opts::default() };
+    let o1 = Opts { f: c.filter.clone(), u: c.u, d: c.d, m: c.m.clone(), ..Opts::default() };
     let o2 = Opts { f: None, u: c.u, d: c.d, ..Opts::default() };
     let all: Vec<&Vec<u8>> = c.lines.iter().collect();
     let kept: Vec<&Vec<u8>> = c
@@ -197,7 +200,7 @@ fn judge_output(c: &Case, out: &str, via: &str) -> Result<(), String> {
 }
 
 fn check_counters_inproc(c: &Case) -> Result<(), String> {
-    let o = Opts { f: c.filter.clone(), u: c.u, c: c.count, i: vec!["".into()], upd: -1, ..Opts::default() };
+    let o = Opts { f: c.filter.clone(), u: c.u, c: c.count, i: vec!["".into()], upd: -1, m: c.m.clone(), ..Opts::default() };
     let all: Vec<&Vec<u8>> = c.lines.iter().collect();
     let t = run::new_table();
     let (r, out) = run::run_bytes_captured(&o, &t, &join(&all));
@@ -206,7 +209,7 @@ fn check_counters_inproc(c: &Case) -> Result<(), String> {
 }
 
 fn check_counters_cli(c: &Case) -> Result<(), String> {
-    let o = Opts { f: c.filter.clone(), u: c.u, c: c.count, i: vec!["A".into()], upd: -1, ..Opts::default() };
+    let o = Opts { f: c.filter.clone(), u: c.u, c: c.count, i: vec!["A".into()], upd: -1, m: c.m.clone(), ..Opts::default() };
     let all: Vec<&Vec<u8>> = c.lines.iter().collect();
     let p = run::tmp_dir().join(format!("c16-{}.txt", std::process::id()));
     std::fs::write(&p, join(&all)).map_err(|e| e.to_string())?;
